@@ -830,10 +830,18 @@ class Generator(TreeListener):
             deps = ca.vertcat(*orig_deps)
             J = ca.Function("J", [deps], [ca.jacobian(s, deps)])
             J_sparsity = J.sparsity_out(0)
-            der_deps = [
-                self.get_derivative(dep) if J_sparsity.has_nz(0, j) else ca.DM.zeros(dep.size())
-                for j, dep in enumerate(orig_deps)
-            ]
+            # A (vector) symbol takes up as many columns of the Jacobian as it has elements
+            der_deps = []
+            column = 0
+            for dep in orig_deps:
+                columns = range(column, column + dep.numel())
+                column += dep.numel()
+                if any(
+                    J_sparsity.has_nz(i, j) for i in range(J_sparsity.size1()) for j in columns
+                ):
+                    der_deps.append(self.get_derivative(dep))
+                else:
+                    der_deps.append(ca.DM.zeros(dep.size()))
             return ca.mtimes(J(deps), ca.vertcat(*der_deps))
 
     def get_indexed_symbol(self, tree, s):
